@@ -66,7 +66,7 @@ def monitor(scn, d):
     return None
 
 def run(chk):
-    r = standard_run(chk, PROFILE, 600, 20000)
+    r = standard_run(chk, PROFILE, 1500, 20000)
     if r is None: return
     drv, impl, scns, ms, ds = r
     def proj(lines, n):
